@@ -13,6 +13,7 @@ import (
 	"io"
 	"os"
 	"path/filepath"
+	"strconv"
 	"sync"
 	"sync/atomic"
 	"time"
@@ -213,10 +214,17 @@ func c15Run(in c15In) (out c15Out) {
 			for batch := range b.BatchChan() {
 				held = append(held, batch.Batch)
 				R.mu.Lock()
+				var whole []byte
 				for _, line := range batch.Batch {
 					l := append(append([]byte(nil), line...), '\n')
-					R.log = append(R.log, c15Ent{3, hex.EncodeToString(l)})
+					if bsz == 1 {
+						R.log = append(R.log, c15Ent{3, hex.EncodeToString(l)})
+					}
+					whole = append(whole, l...)
 					R.delivered = append(R.delivered, l...)
+				}
+				if bsz > 1 && len(whole) > 0 { // one entry per batch
+					R.log = append(R.log, c15Ent{3, hex.EncodeToString(whole)})
 				}
 				R.mu.Unlock()
 				if bsz > 1 {
@@ -444,9 +452,13 @@ func c15Run(in c15In) (out c15Out) {
 	}
 	expectEOF := !in.Reopen && removes > 0
 	if ok && expectEOF {
+		eofLimit := stallLimit
+		if in.Via == "batcher" && in.Poll { // PollDelay cannot be shortened through TailFilesToChan: 5 x 250 ms before the Stat
+			eofLimit = 2 * stallLimit
+		}
 		select {
 		case <-done:
-		case <-time.After(stallLimit):
+		case <-time.After(eofLimit):
 			fail("no EOF after the removal within the limit")
 		}
 	} else if ok {
@@ -473,16 +485,95 @@ func c15Run(in c15In) (out c15Out) {
 	return out
 }
 
+// entCoq prints log entries; an entry of more than 2000 bytes is printed as consecutive entries of the same kind
+// (appending / delivering a string in pieces is the same for the specification; Coq cannot parse huge literals)
 func entCoq(es []c15Ent) string {
-	ps := make([]string, len(es))
-	for i, e := range es {
-		ps[i] = fmt.Sprintf("(%d,\"%s\")", e.K, e.D)
+	var ps []string
+	for _, e := range es {
+		for _, piece := range hexPieces(e.D) {
+			ps = append(ps, fmt.Sprintf("(%d,\"%s\")", e.K, piece))
+		}
 	}
 	return CoqList(ps)
+}
+func hexPieces(h string) []string {
+	if len(h) <= 4000 {
+		return []string{h}
+	}
+	var out []string
+	for len(h) > 0 {
+		k := len(h)
+		if k > 4000 {
+			k = 4000
+		}
+		out = append(out, h[:k])
+		h = h[k:]
+	}
+	return out
+}
+
+// record k of the batcher-big cases: 64 bytes, numbered
+func bigRecord(k int) []byte {
+	sb := []byte(fmt.Sprintf("%08d:", k))
+	for j := 0; j < 54; j++ {
+		sb = append(sb, byte('a'+(k+j)%26))
+	}
+	return append(sb, '\n')
+}
+
+// recode shortens the streams of the batcher-big cases for the Coq side: every 64-byte piece that is exactly record k
+// becomes the 4 bytes ff k2 k1 k0, anything else stays as it is.  The same injective recoding is applied to what was
+// written and to what was delivered (the file contains ASCII only, so ff marks a token), equality and the prefix
+// relation between the two are preserved in both directions.
+func recode(h string) string {
+	b, err := hex.DecodeString(h)
+	if err != nil {
+		return h
+	}
+	var out []byte
+	for len(b) > 0 {
+		n := 64
+		if len(b) < n {
+			n = len(b)
+		}
+		piece := b[:n]
+		b = b[n:]
+		k := -1
+		if n == 64 {
+			if v, err := strconv.Atoi(string(piece[:8])); err == nil && v >= 0 && v < 1<<24 && string(bigRecord(v)) == string(piece) {
+				k = v
+			}
+		}
+		if k >= 0 {
+			out = append(out, 0xff, byte(k>>16), byte(k>>8), byte(k))
+		} else {
+			out = append(out, piece...)
+		}
+	}
+	return hex.EncodeToString(out)
 }
 
 func c15Case(in c15In) Case {
 	out := c15Run(in)
+	raw := out
+	if in.Class == "batcher-big" { // Coq sees the recoded streams; the JSON description keeps the real bytes (shortened)
+		rc := c15Out{Delivered: recode(out.Delivered), Term: out.Term, Nudges: out.Nudges, Note: out.Note}
+		for _, e := range out.Log {
+			rc.Log = append(rc.Log, c15Ent{e.K, recode(e.D)})
+		}
+		out = rc
+		if in.C0 != nil {
+			c := recode(*in.C0)
+			in2 := in
+			in2.C0 = &c
+			return c15CaseOf(in, in2, out, raw)
+		}
+	}
+	return c15CaseOf(in, in, out, raw)
+}
+
+// in: the real input (description, replay); cin/out: what is printed for Coq; raw: the real output
+func c15CaseOf(orig, in c15In, out, raw c15Out) Case {
 	var hist []c15Ent
 	removes, creates, appends := 0, 0, 0
 	for _, e := range out.Log {
@@ -504,6 +595,14 @@ func c15Case(in c15In) Case {
 	}
 	coq := fmt.Sprintf("c %s %s %s %s \"%s\" %s \"%s\" %d %s", B(in.Poll), B(in.Reopen), B(in.Tail), has0, c0,
 		entCoq(hist), out.Delivered, out.Term, entCoq(out.Log))
+	if len(out.Delivered) > 4000 { // the delivered stream in pieces
+		qs := hexPieces(out.Delivered)
+		for i := range qs {
+			qs[i] = "\"" + qs[i] + "\""
+		}
+		coq = fmt.Sprintf("cL %s %s %s %s \"%s\" %s %s %d %s", B(in.Poll), B(in.Reopen), B(in.Tail), has0, c0,
+			entCoq(hist), CoqList(qs), out.Term, entCoq(out.Log))
+	}
 	mode := "notify"
 	if in.Poll {
 		mode = "poll"
@@ -578,10 +677,10 @@ func c15Case(in c15In) Case {
 	if !in.Reopen && recreated {
 		tags = append(tags, "plain-recreated") // (polling: the input class of the fixed finding C15-poll-plain-recreate)
 	}
-	kb, _ := json.Marshal(in)
+	kb, _ := json.Marshal(orig)
 	return Case{
 		Coq:        coq,
-		Desc:       map[string]any{"input": in, "output": out},
+		Desc:       map[string]any{"input": orig, "output": raw},
 		Key:        string(kb),
 		Nontrivial: appends >= 2 || removes > 0,
 		Tags:       tags,
@@ -633,6 +732,9 @@ func (g *gen) mk(class string, poll, reopen, tail bool, budget int) c15In {
 		in.C0 = nil
 	} else {
 		n := r.Range(0, 12)
+		if class == "batcher-big" {
+			n = 0
+		}
 		if class == "rotate" || class == "double-rotate" || class == "paused-rotate" {
 			n = r.Range(2, 12)
 		}
@@ -661,6 +763,27 @@ func (g *gen) mk(class string, poll, reopen, tail bool, budget int) c15In {
 		for i := 0; i < budget%8+1; i++ {
 			add(c15Op{Op: "append", Data: g.data(r.Range(0, 9)) + "0a", WaitUs: g.wait(), Sync: r.Chance(1, 4)})
 		}
+		add(c15Op{Op: "remove", WaitUs: g.wait()})
+	case "batcher-big": // TailFilesToChan, 64-byte numbered records; the bytes read reach the end of the 128 KiB read-ahead
+		// buffer exactly at a record boundary (2048 records) while earlier lines are still held by the consumer
+		in.Via, in.Batch = "batcher", 64
+		rec := func(from, to int) string {
+			var sb []byte
+			for k := from; k < to; k++ {
+				sb = append(sb, bigRecord(k)...)
+			}
+			return hex.EncodeToString(sb)
+		}
+		first := r.Range(1, 8)
+		ls := rec(0, first)
+		in.C0 = &ls
+		const total = 2148 // 2048 records fill the buffer, 100 more follow
+		cuts := []int{first, first + r.Range(300, 900), first + r.Range(1000, 1700), total}
+		for k := 0; k+1 < len(cuts); k++ {
+			add(c15Op{Op: "append", Data: rec(cuts[k], cuts[k+1]), WaitUs: Pick(r, []int{0, 0, 300, 2500})})
+		}
+		// exactly one more record after the flush timeout: it takes everything held so far with it
+		add(c15Op{Op: "append", Data: rec(total, total+1), WaitUs: r.Range(300000, 400000)})
 		add(c15Op{Op: "remove", WaitUs: g.wait()})
 	case "batcher-burst": // TailFilesToChan with a real batch size: a partial batch leaves on the 250 ms flush (it is
 		// triggered by the first line of the burst), the rest of the burst is scanned right behind it
@@ -805,6 +928,10 @@ func c15Plan(r *Rng, n int, notify bool) []c15In {
 		if c.name == "batcher" { // alternate, so that both branches of tailBatcher.go are taken in every run
 			tail = (i/len(classes))%2 == 0
 		}
+		if i >= n-2 && n >= 8 { // two fixed-shape cases per run: a stream that crosses the scanner's 128 KiB buffer on a record boundary
+			c.name, c.poll, c.reopen = "batcher-big", (i == n-1) || !notify, false
+			tail = false
+		}
 		in := g.mk(c.name, c.poll, c.reopen, tail, r.Range(4, 24))
 		// every class meets every spelling of the path over the cycles (and over the seeds)
 		in.PathForm = pathForms[(i+i/len(classes)+formOff)%len(pathForms)]
@@ -870,6 +997,7 @@ func main() {
 			"1..5 operations on OTHER entries of the directory (old-followed.log, xfollowed.log, followed.log.1, followed.log~, followed, sibdir/followed.log, directory followed.log.d: create+remove, write, rename, directory with a file) inserted at random positions of every script; " +
 			"plain follow: after the removal the path is re-created at once or after 1..50 ms, empty or with content (the stream has to end, nothing of the new file is delivered; notify and poll); " +
 			"batcher-burst: TailFilesToChan with batch size 64, [1-3 lines, 300-400 ms, burst of 2-6 lines] x 2-3, the consumer holds every batch and re-reads all of them at the end; " +
+			"batcher-big (the last two cases of every run, notify and poll): TailFilesToChan with batch size 64, 2149 numbered 64-byte records appended in three large writes + one, so that the bytes read end exactly at the end of the scanner's 128 KiB buffer on a record boundary, the consumer holds every batch and re-reads all of them at the end; for Coq both the written and the delivered stream of these two cases are recoded record-wise (64-byte record k -> ff + 3 bytes, anything else unchanged); " +
 			"double rotation remove/create/remove/create without pauses (an empty middle file: with notify re-open the domain of finding C15-notify-stale-delete); " +
 			"paused consumer: the consumer leaves Read after draining, the writer removes, re-creates and appends, the consumer resumes after 0.3..4 ms so that delete, create and write notifications are pending together and the select serves them in arbitrary order, 4 rounds per case) x {notify, poll} x {re-open, plain} x {tail, from start}, read buffer in {1,2,3,7,64,4096}. " +
 			"distinct = distinct (flags, initial content, script with timing); non-trivial = at least two appends or a removal. " +
